@@ -606,11 +606,29 @@ def search_xlsx_values():
     return None
 
 
-def search_shapes(obligation):
-    """small native scope for a bounded obligation without a witness"""
+def search_shapes(obligation, skip_known=False):
+    """small native scope for a bounded obligation without a witness (skip_known: leave out the constructs of the recorded
+    known findings -- nested tables, html multi-paragraph cells, epub inline markup, first-row rewriting of xlsx / xls)"""
     fname = obligation.split("/")[1].split("::")[0]
     P = ["p"]
     inner = T([[P]])
+    if skip_known:
+        if fname in ("xlsx_extractor.py", "ods_extractor.py", "xls_extractor.py"):
+            num = "i" if fname != "xls_extractor.py" else "F"
+            shapes = ([[["s", "s"]], [["s"]]] if fname != "xls_extractor.py" else []) + [[["s", "s"], ["s", num]], [["s"], ["b"]], [["s", "s"], ["N", "f"]], [["s", "s"], ["N", "N"], ["s", "N"]], [["s", "s"], ["s", "s"], [num, "s"]]]
+        else:
+            shapes = [[T([[P]])], [T([[P, P], [P, P]])], [T([[[]], [P]])], [T([[P], [P, P]])], [T([[P]]), T([[P]])], [T([[P]]), "p", T([[P, P]])], [T([[P], [P]], 1)], [T([[P, P]]), T([[P], [P]]), T([[P]])]]
+            if fname not in ("html_extractor.py",):
+                shapes.append([T([[["p", "p"], P]])])
+            if fname == "pptx_extractor.py":
+                shapes = [[b for b in s_ if is_table(b)] for s_ in shapes if not any(is_table(b) and b["hdr"] for b in s_)]
+            if fname == "odp_extractor.py":
+                shapes = [s_ for s_ in shapes if len(s_) == 1]
+        for sh in shapes:
+            bad, detail, got, want = replay_shape(obligation, sh)
+            if bad:
+                return {"target": obligation, "inputs": {"shape": sh}, "expected": want, "observed": got, "detail": detail}
+        return None
     if fname in ("xlsx_extractor.py", "ods_extractor.py", "xls_extractor.py"):
         shapes = [[["s"]], [["s", "s"], ["s", "i" if fname != "xls_extractor.py" else "F"]], [["s", "N"], ["s", "s"]], [["N", "s"], ["s", "s"]], [["s", "="], ["s", "s"]],
                   [["s"], ["b"]], [["s", "s"], ["N", "f"]], [["s", "s"], ["N", "N"], ["s", "N"]]]
@@ -658,6 +676,14 @@ def find(req):
     if "/bounded#" in ob:
         r = search_rtf() if "rtf_extractor.py" in ob else search_shapes(ob)
         return dict(r, reproduced=True) if r else {"reproduced": False, "note": "small native scope satisfies the clause"}
+    if "/call-site#" in ob and "rtf_extractor.py" not in ob:
+        # a call site that hands the walker's result on was not recognised: run the public reader end to end
+        fname = ob.split("/")[1].split("::")[0]
+        for clause in ("tables-in-document-order-none-lost-none-invented", "rows-and-cells-are-the-direct-ones", "cell-holds-its-own-text"):
+            r = search_shapes(f"C13/{fname}::reader/bounded#{clause}", skip_known=True)
+            if r:
+                return dict(r, reproduced=True)
+        return {"reproduced": False, "note": "the public reader returns the source grids on the native scope"}
     if "rtf_extractor.py" in ob:
         r = search_rtf()
         return dict(r, reproduced=True) if r else {"reproduced": False, "note": "RTF tables (rows newline-separated / back to back, several layouts) agree natively"}
